@@ -153,6 +153,7 @@ static Verdict enumerate(int tier, int shard, int nshards, Fields *failing) {
       uint64_t x = v;
       for (int i = 0; i < len; i++) { s += alpha[x % K]; x /= K; }
       if (!uriref_matcher().matches(s)) continue;
+      { Fields c; c.set("text", s); c.seti("src", 90); note_case(c); }
       Verdict r = check_text(s);
       stats().evaluations++;
       if (r.kind == Verdict::FAIL) { failing->set("text", s); failing->seti("src", 90); return r; }
@@ -170,6 +171,7 @@ static Verdict enumerate(int tier, int shard, int nshards, Fields *failing) {
       uint64_t x = v;
       for (int i = 0; i < len; i++) { s += lalpha[x % LK]; x /= LK; }
       if (!uriref_matcher().matches(s)) continue;
+      { Fields c; c.set("text", s); c.seti("src", 91); note_case(c); }
       Verdict r = check_text(s);
       stats().evaluations++;
       if (r.kind == Verdict::FAIL) { failing->set("text", s); failing->seti("src", 91); return r; }
